@@ -34,6 +34,30 @@ fn span(s: &Option<Sl>, buf: &[u8]) -> String {
     }
 }
 
+/// canaries intact; on Complete every slot beyond the exposed count still holds its sentinel and
+/// every exposed slot is the array's slot; otherwise (observation only, no parsing logic)
+pub fn slots_ok(o: &Obs) -> bool {
+    if o.slots.is_empty() && o.exposed.is_empty() {
+        return true;
+    }
+    if !o.canary_ok {
+        return false;
+    }
+    if o.st == ST_C {
+        for (i, h) in o.exposed.iter().enumerate() {
+            if i < o.slots.len() && o.slots[i] != *h {
+                return false;
+            }
+        }
+        for i in o.exposed.len()..o.slots.len() {
+            if !is_sentinel(&o.slots[i], i + 1) {
+                return false;
+            }
+        }
+    }
+    true
+}
+
 pub fn obs_json(o: &Obs, buf: &[u8], kind: u8) -> String {
     let hs: Vec<String> = if o.st == ST_C {
         o.exposed
@@ -56,7 +80,7 @@ pub fn obs_json(o: &Obs, buf: &[u8], kind: u8) -> String {
         vec![]
     };
     format!(
-        "\"st\":{},\"n\":{},\"err\":{},\"m\":{},\"p\":{},\"v\":{},\"c\":{},\"r\":{},\"h\":[{}],\"digits\":[{}],\"panicked\":{}",
+        "\"st\":{},\"n\":{},\"err\":{},\"m\":{},\"p\":{},\"v\":{},\"c\":{},\"r\":{},\"h\":[{}],\"digits\":[{}],\"panicked\":{},\"allocs\":{},\"slots_ok\":{}",
         o.st,
         o.n,
         o.err,
@@ -67,7 +91,9 @@ pub fn obs_json(o: &Obs, buf: &[u8], kind: u8) -> String {
         span(&o.reason, buf),
         hs.join(","),
         digits.join(","),
-        o.panicked
+        o.panicked,
+        o.allocs,
+        slots_ok(o) as u8
     )
 }
 
@@ -283,7 +309,7 @@ pub fn cmd_feed(args: &[String]) {
 // ---------------------------------------------------------------- call (long inputs)
 fn long_inputs(rng: &mut StdRng, thorough: bool) -> Vec<(u8, u8, usize, Vec<u8>)> {
     let mut v: Vec<(u8, u8, usize, Vec<u8>)> = Vec::new();
-    let sizes: &[usize] = if thorough { &[4096, 16384, 66000, 70000] } else { &[4096, 66000] };
+    let sizes: &[usize] = if thorough { &[4096, 16384, 66000, 70000, 140000, 300000, 1050000] } else { &[4096, 66000, 140000] };
     for &sz in sizes {
         // long request target (past 64 KiB), long header value, long header name, long reason
         let mut b = b"GET /".to_vec();
@@ -342,7 +368,7 @@ pub fn cmd_call(args: &[String]) {
     let thorough = args.iter().any(|a| a == "--thorough");
     let mut rng = StdRng::seed_from_u64(seed ^ 0xca11);
     let inputs = long_inputs(&mut rng, thorough);
-    let arena = Arena::new(1 << 20);
+    let arena = Arena::new(3 << 20);
     let mut ws: Vec<BufWriter<std::fs::File>> = (0..shards).map(|i| BufWriter::new(std::fs::File::create(format!("{}.{}", out, i)).unwrap())).collect();
     let mut bytes_total = 0usize;
     // biggest inputs first, round-robin, so that shards are balanced
@@ -368,17 +394,28 @@ pub fn cmd_call(args: &[String]) {
 fn short_message(rng: &mut StdRng, kind: u8) -> Vec<u8> {
     let mut b: Vec<u8> = Vec::new();
     if kind == K_REQ {
+        if rng.gen_bool(0.15) { b.extend_from_slice(b"\r\n"); }
         b.extend_from_slice([&b"GET"[..], b"POST", b"X"][rng.gen_range(0..3)]);
-        b.extend_from_slice(b" /");
+        b.push(b' ');
+        if rng.gen_bool(0.2) { b.push(b' '); }
+        b.push(b'/');
         for _ in 0..rng.gen_range(0..4) { b.push(rng.gen_range(b'a'..=b'z')); }
-        b.extend_from_slice(b" HTTP/1.");
+        b.push(b' ');
+        if rng.gen_bool(0.2) { b.extend_from_slice(b"  "); }
+        b.extend_from_slice(b"HTTP/1.");
         b.push(if rng.gen_bool(0.5) { b'0' } else { b'1' });
     } else {
         b.extend_from_slice(b"HTTP/1.");
         b.push(if rng.gen_bool(0.5) { b'0' } else { b'1' });
-        b.extend_from_slice(b" 20");
+        b.push(b' ');
+        if rng.gen_bool(0.2) { b.push(b' '); }
+        b.extend_from_slice(b"20");
         b.push(b'0' + rng.gen_range(0..10));
-        if rng.gen_bool(0.7) { b.extend_from_slice(b" OK"); }
+        if rng.gen_bool(0.7) {
+            b.push(b' ');
+            if rng.gen_bool(0.2) { b.push(b' '); }
+            b.extend_from_slice(b"OK");
+        }
     }
     b.extend_from_slice(if rng.gen_bool(0.5) { b"\r\n" } else { b"\n" });
     for _ in 0..rng.gen_range(0..5) {
@@ -427,12 +464,21 @@ pub fn cmd_session(args: &[String]) {
             } else {
                 short_message(&mut rng, kind)
             };
-            let uninit = rng.gen_bool(0.25);
+            let uninit = rng.gen_bool(0.3);
             let cfg = if rng.gen_bool(0.5) { 0 } else { rng.gen_range(0..128u8) & relevant_mask(kind) };
             plan.push((uninit, rng.gen_range(0..5), cfg, buf));
         }
         writeln!(w, "{{\"ev\":\"session\",\"kind\":{},\"cap\":{}}}", kind, cap).unwrap();
-        let bufs: Vec<Vec<u8>> = plan.iter().map(|p| p.3.clone()).collect();
+        // the README loop re-parses a growing prefix of ONE allocation (same start address every
+        // time); the other sessions use a separate allocation per call
+        let store: Vec<Vec<u8>> = plan.iter().map(|p| p.3.clone()).collect();
+        let bufs: Vec<&[u8]> = if readme {
+            plan.iter().map(|p| &full[..p.3.len()]).collect()
+        } else {
+            store.iter().map(|v| &v[..]).collect()
+        };
+        // with the default configuration also go through the convenience entry points
+        let plain: Vec<bool> = plan.iter().map(|p| p.2 == 0 && (p.3.len() + si) % 2 == 0).collect();
         let mut arr: Vec<httparse::Header> = (0..cap).map(sentinel).collect();
         let arr_base = arr.as_ptr() as usize;
         let mut uns: Vec<Vec<MaybeUninit<httparse::Header>>> = plan.iter().map(|p| (0..p.1).map(|i| MaybeUninit::new(sentinel(i))).collect()).collect();
@@ -447,12 +493,17 @@ pub fn cmd_session(args: &[String]) {
         if kind == K_REQ {
             let mut req = httparse::Request::new(&mut arr[..]);
             for (ci, p) in plan.iter().enumerate() {
-                let buf: &[u8] = &bufs[ci];
+                let buf: &[u8] = bufs[ci];
                 let un = un_iter.next().unwrap();
                 let cfg = make_config(p.2);
                 let before_ptr = req.headers.as_ptr() as usize;
                 let before_len = req.headers.len();
-                let r: Result<_, ()> = Ok(if p.0 { cfg.parse_request_with_uninit_headers(&mut req, buf, &mut un[..]) } else { cfg.parse_request(&mut req, buf) });
+                let r: Result<_, ()> = Ok(match (p.0, plain[ci]) {
+                    (true, false) => cfg.parse_request_with_uninit_headers(&mut req, buf, &mut un[..]),
+                    (true, true) => req.parse_with_uninit_headers(buf, &mut un[..]),
+                    (false, false) => cfg.parse_request(&mut req, buf),
+                    (false, true) => req.parse(buf),
+                });
                 let mut o = Obs::default();
                 match r {
                     Ok(Ok(httparse::Status::Complete(n))) => { o.st = ST_C; o.n = n; }
@@ -473,12 +524,16 @@ pub fn cmd_session(args: &[String]) {
         } else {
             let mut resp = httparse::Response::new(&mut arr[..]);
             for (ci, p) in plan.iter().enumerate() {
-                let buf: &[u8] = &bufs[ci];
+                let buf: &[u8] = bufs[ci];
                 let un = un_iter.next().unwrap();
                 let cfg = make_config(p.2);
                 let before_ptr = resp.headers.as_ptr() as usize;
                 let before_len = resp.headers.len();
-                let r: Result<_, ()> = Ok(if p.0 { cfg.parse_response_with_uninit_headers(&mut resp, buf, &mut un[..]) } else { cfg.parse_response(&mut resp, buf) });
+                let r: Result<_, ()> = Ok(match (p.0, plain[ci]) {
+                    (true, _) => cfg.parse_response_with_uninit_headers(&mut resp, buf, &mut un[..]),
+                    (false, false) => cfg.parse_response(&mut resp, buf),
+                    (false, true) => resp.parse(buf),
+                });
                 let mut o = Obs::default();
                 match r {
                     Ok(Ok(httparse::Status::Complete(n))) => { o.st = ST_C; o.n = n; }
@@ -536,16 +591,17 @@ pub fn cmd_scan(args: &[String]) {
     let seed: u64 = arg(args, "--seed").and_then(|s| s.parse().ok()).unwrap_or(0);
     let lens: Vec<usize> = if thorough { (0..=100).collect() } else {
         let mut v: Vec<usize> = (0..=40).collect();
-        v.extend_from_slice(&[47, 48, 49, 63, 64, 65, 66, 95, 96, 97, 100]);
+        v.extend_from_slice(&[47, 48, 49, 63, 64, 65, 66, 95, 96, 97, 100, 127, 128, 129, 160, 192, 256, 257, 300]);
         v
     };
+    let lens: Vec<usize> = if thorough { let mut v = lens; v.extend_from_slice(&[127, 128, 129, 160, 192, 255, 256, 257, 300]); v } else { lens };
     let aligns: Vec<usize> = if thorough { (0..32).collect() } else { vec![(seed % 32) as usize, ((seed / 32 + 13) % 32) as usize] };
     let arena = Arena::new(1 << 16);
     let mut ws: Vec<BufWriter<std::fs::File>> = (0..shards).map(|i| BufWriter::new(std::fs::File::create(format!("{}.{}", out, i)).unwrap())).collect();
     let mut events = 0u64;
     let mut calls = 0u64;
     let mut backends_seen = Vec::new();
-    let mut data = vec![0u8; 128];
+    let mut data = vec![0u8; 512];
     for backend in 0u8..4 {
         if httparse::verif::scan(backend, 0, b"abc").is_none() {
             continue;
@@ -559,11 +615,20 @@ pub fn cmd_scan(args: &[String]) {
                 for fill in [97u8, 9u8] {
                     // p = 0: no offender (one event); p in 1..=n; optional second offender
                     for p in 0..=n {
-                        let seconds: Vec<(usize, u8)> = if p > 0 && p + 1 <= n && (thorough || n % 7 == 3) {
+                        let mut seconds: Vec<(usize, u8)> = if p > 0 && p + 1 <= n && (thorough || n % 7 == 3) {
                             vec![(0, 0), (p + 1, 0), ((p + 9).min(n), 127)]
                         } else {
                             vec![(0, 0)]
                         };
+                        // long buffers: a second byte one, two or three vector widths away, both an
+                        // offending one and an in-class high one (unrolled loops combine blocks)
+                        if n >= 127 && p > 0 && fill == 97 {
+                            if n > 160 && p % 3 != 0 && !thorough { continue; }
+                            for d in [32usize, 64, 96] {
+                                if p + d <= n { seconds.push((p + d, 0x80)); seconds.push((p + d, 0x7f)); }
+                                if p > d { seconds.push((p - d, 0xff)); }
+                            }
+                        }
                         for (q, qb) in seconds {
                             if q == p { continue; }
                             for (ai, &align) in aligns.iter().enumerate() {
